@@ -234,29 +234,30 @@ def classify_exact_recursion(case):
 
     a = np.asarray(case["a"], dtype=np.float32)
     th0 = np.asarray(case["theta0"], dtype=np.float32)
-    lr, nit, kind = case["lr"], case["n_iter"], case["objective"]
-    C = f"exact_recursion:{kind}"
+    sc = float(case.get("scale", 1.0))  # objective scale: steep (1e4) and flat (1e-3) objectives with lr rescaled accordingly
+    lr, nit, kind = case["lr"] / sc, case["n_iter"], case["objective"]
+    C = f"exact_recursion:{kind}" + (f":scale{sc:g}" if sc != 1.0 else "")
     fails = []
 
     if kind == "quadratic":
         @expectation
         def obj(th):
-            return -jnp.sum((th - jnp.asarray(a)) ** 2) + jnp.sum(jnp.sin(th))
+            return sc * (-jnp.sum((th - jnp.asarray(a)) ** 2) + jnp.sum(jnp.sin(th)))
 
         def grad(t):
-            return -2 * (t - a.astype(np.float64)) + np.cos(t)
+            return sc * (-2 * (t - a.astype(np.float64)) + np.cos(t))
     else:  # enumeration-only objective: zero-variance gradient through flip_enum
         @expectation
         def obj(th):
             b = flip_enum(jax.nn.sigmoid(th[0]))
-            return jnp.where(b, th[1] * 2.0, -th[1] ** 2) + 0.0 * jnp.sum(th)
+            return sc * jnp.where(b, th[1] * 2.0, -th[1] ** 2) + 0.0 * jnp.sum(th)
 
         def grad(t):
             s = 1 / (1 + np.exp(-t[0]))
             g = np.zeros_like(t)
             g[0] = s * (1 - s) * (t[1] * 2.0 + t[1] ** 2)
             g[1] = s * 2.0 + (1 - s) * (-2 * t[1])
-            return g
+            return sc * g
 
     try:
         va = impl(seed(lambda p: optimize_vi(obj, p, lr, nit)), env.key(case["key"], 0), jnp.asarray(th0))
@@ -292,7 +293,7 @@ def cases():
                                   "pair": st.sampled_from(["reinforce+reinforce", "reparam+reinforce", "reinforce+reparam"]),
                                   "params": st.lists(f(-0.6, 0.6), min_size=12, max_size=12), "lr": st.sampled_from([0.01, 0.05]), "n_iter": st.integers(2, 6), "key": st.integers(0, 2**30)})
     rec = st.fixed_dictionaries({"kind": st.just("recursion"), "objective": st.sampled_from(["quadratic", "enum"]), "a": st.lists(f(-1, 1), min_size=2, max_size=2),
-                                 "theta0": st.lists(f(-1, 1), min_size=2, max_size=2), "lr": st.sampled_from([0.01, 0.1, 0.3]), "n_iter": st.integers(1, 20), "key": st.integers(0, 2**30)})
+                                 "theta0": st.lists(f(-1, 1), min_size=2, max_size=2), "lr": st.sampled_from([0.01, 0.1, 0.3]), "scale": st.sampled_from([1.0, 1.0, 1e4, 1e-3]), "n_iter": st.integers(1, 20), "key": st.integers(0, 2**30)})
     return st.one_of(conj, conj, rec)
 
 
@@ -307,7 +308,7 @@ def one_case(ctx, case):
         nt = True
     else:
         fails, info = classify_exact_recursion(case)
-        cls = [f"C17.recursion_{case['objective']}"]
+        cls = [f"C17.recursion_{case['objective']}"] + ([f"C17.recursion_scale_{case['scale']:g}"] if case.get("scale", 1.0) != 1.0 else [])
         nt = case["n_iter"] >= 2
     ctx.case(case, nt, cls, sample={**case, "info": info})
     for b, w in fails:
